@@ -29,6 +29,15 @@ Proof. rewrite skipn_skipn'. f_equal. lia. Qed.
 Lemma skipn_nil_len {A} n (l : list A) : (n <= length l)%nat -> skipn n l = [] -> n = length l.
 Proof. intros H E. apply (f_equal (@length A)) in E. rewrite skipn_length in E. simpl in E. lia. Qed.
 
+Lemma skip_varint b : skip_field b ty_varint = match parse_varint b with VOk _ n => SkOk n | VErr _ => SkErr end.
+Proof. reflexivity. Qed.
+Lemma skip_bytes b : skip_field b ty_bytes = match parse_len b with LOk ln n => SkOk (n + ln) | LErr => SkErr end.
+Proof. reflexivity. Qed.
+Lemma skip_f64 b : skip_field b ty_fixed64 = if (8 <=? lenN b)%N then SkOk 8 else SkErr.
+Proof. reflexivity. Qed.
+Lemma skip_f32 b : skip_field b ty_fixed32 = if (4 <=? lenN b)%N then SkOk 4 else SkErr.
+Proof. reflexivity. Qed.
+
 Lemma parse_chain buf : forall fuel off recs,
   (off <= length buf)%nat -> parse_fields fuel (skipn off buf) off = Some recs -> chain buf off recs.
 Proof.
@@ -52,7 +61,8 @@ Proof.
   { intros vlen hdr v Hle Hsk Hv Hl Hc.
     rewrite skipn_add in Hc.
     replace (off + n + (hdr + vlen))%nat with (off + n + hdr + vlen)%nat in Hc by lia.
-    revert Hc. destruct (parse_fields fu _ _) as [r|] eqn:Er; intros Hc; cbv iota in Hc; [|discriminate Hc].
+    remember (parse_fields fu (skipn (off + n + hdr + vlen) buf) (off + n + hdr + vlen)) as pr eqn:Er.
+    destruct pr as [r|]; [|discriminate Hc]. symmetry in Er.
     inversion Hc; subst recs. apply IH in Er; [|exact Hle].
     change off with (f_from (mkF num typ off n (off + n + hdr) (off + n + hdr + vlen) v)).
     constructor; [|exact Er].
@@ -61,28 +71,35 @@ Proof.
     split; [rewrite Hsk; f_equal; lia|].
     split; [exact Hv|].
     intros Ht. rewrite (Hl Ht). f_equal; lia. }
-  destruct (N.eqb_spec typ ty_varint) as [->|Hv].
-  { destruct (parse_varint (skipn (off + n) buf)) as [u m|] eqn:Ev; [|discriminate].
+  revert H.
+  destruct (N.eqb_spec typ ty_varint) as [Ev0|Hv].
+  { destruct (parse_varint (skipn (off + n) buf)) as [u m|] eqn:Ev; [|discriminate]. intros H.
     pose proof (parse_varint_bounds _ _ _ Ev) as [Hm _]. rewrite skipn_len in Hm.
-    apply (Hgen m 0%nat u); [lia| | |discriminate|exact H].
-    - unfold skip_field. cbn. rewrite Ev. reflexivity.
-    - intros _. eauto. }
-  destruct (N.eqb_spec typ ty_bytes) as [->|Hb].
-  { destruct (parse_len (skipn (off + n) buf)) as [ln m|] eqn:El; [|discriminate].
+    apply (Hgen m 0%nat u); [lia| | | |exact H].
+    - rewrite Ev0, skip_varint, Ev. reflexivity.
+    - intros _. eauto.
+    - rewrite Ev0. discriminate. }
+  destruct (N.eqb_spec typ ty_bytes) as [Eb0|Hb].
+  { destruct (parse_len (skipn (off + n) buf)) as [ln m|] eqn:El; [|discriminate]. intros H.
     pose proof (parse_len_bounds _ _ _ El) as [_ Hm]. rewrite skipn_len in Hm.
-    apply (Hgen ln m 0%N); [lia| |discriminate| |exact H].
-    - unfold skip_field. cbn. rewrite El. reflexivity.
+    apply (Hgen ln m 0%N); [lia| | | |exact H].
+    - rewrite Eb0, skip_bytes, El. reflexivity.
+    - rewrite Eb0. discriminate.
     - intros _. reflexivity. }
-  destruct (N.eqb_spec typ ty_fixed64) as [->|H64].
-  { destruct (8 <=? lenN (skipn (off + n) buf))%N eqn:Hc; [|discriminate].
+  destruct (N.eqb_spec typ ty_fixed64) as [E640|H64].
+  { destruct (8 <=? lenN (skipn (off + n) buf))%N eqn:Hc; [|discriminate]. intros H.
     pose proof Hc as Hc'. apply N.leb_le in Hc'. rewrite lenN_spec, skipn_len in Hc'.
-    apply (Hgen 8%nat 0%nat 0%N); [lia| |discriminate|discriminate|exact H].
-    unfold skip_field. cbn. rewrite Hc. reflexivity. }
-  destruct (N.eqb_spec typ ty_fixed32) as [->|H32]; [|discriminate].
-  destruct (4 <=? lenN (skipn (off + n) buf))%N eqn:Hc; [|discriminate].
+    apply (Hgen 8%nat 0%nat 0%N); [lia| | | |exact H].
+    - rewrite E640, skip_f64, Hc. reflexivity.
+    - rewrite E640. discriminate.
+    - rewrite E640. discriminate. }
+  destruct (N.eqb_spec typ ty_fixed32) as [E320|H32]; [|discriminate].
+  destruct (4 <=? lenN (skipn (off + n) buf))%N eqn:Hc; [|discriminate]. intros H.
   pose proof Hc as Hc'. apply N.leb_le in Hc'. rewrite lenN_spec, skipn_len in Hc'.
-  apply (Hgen 4%nat 0%nat 0%N); [lia| |discriminate|discriminate|exact H].
-  unfold skip_field. cbn. rewrite Hc. reflexivity.
+  apply (Hgen 4%nat 0%nat 0%N); [lia| | | |exact H].
+  - rewrite E320, skip_f32, Hc. reflexivity.
+  - rewrite E320. discriminate.
+  - rewrite E320. discriminate.
 Qed.
 
 Lemma parse_msg_chain b recs : parse_msg b = Some recs -> chain b 0 recs.
@@ -95,9 +112,9 @@ Qed.
 
 Lemma chain_length buf : forall recs off, chain buf off recs -> (off + length recs <= length buf)%nat.
 Proof.
-  induction recs as [|f r IH]; intros off H; inversion H; subst; simpl; [lia|].
-  pose proof (rec_at_lt _ _ H2) as (A & B & _). destruct H2 as (_ & C & _).
-  apply IH in H4. lia.
+  induction recs as [|f r IH]; intros off H; inversion H as [|f' r' Hat Hr]; subst; simpl; [lia|].
+  pose proof (rec_at_lt _ _ Hat) as (A & B & _). destruct Hat as (_ & C & _).
+  apply IH in Hr. lia.
 Qed.
 
 Lemma chain_off_le buf recs off : chain buf off recs -> (off <= length buf)%nat.
@@ -105,7 +122,7 @@ Proof. intros H. apply chain_length in H. lia. Qed.
 
 Lemma chain_next buf f g r : chain buf (f_to f) (g :: r) -> (f_to f =? length buf)%nat = false.
 Proof.
-  intros H. inversion H; subst. apply rec_at_lt in H3. apply Nat.eqb_neq. lia.
+  intros H. inversion H as [|f' r' Hat Hr]; subst. apply rec_at_lt in Hat. apply Nat.eqb_neq. lia.
 Qed.
 
 Lemma chain_last buf f : chain buf (f_to f) [] -> (f_to f =? length buf)%nat = true.
@@ -129,7 +146,7 @@ Lemma seek_loop_sim buf seek : forall recs fuel off prev,
 Proof.
   induction recs as [|f r IH]; intros fuel off prev Hc Hne Hfuel; [congruence|].
   destruct fuel as [|fu]; [simpl in Hfuel; lia|].
-  inversion Hc; subst. rename H1 into Hat, H3 into Hr.
+  inversion Hc as [|f' r' Hat Hr]; subst.
   pose proof (rec_at_lt _ _ Hat) as (Hlt & Htl & _).
   destruct Hat as (Ht & Hb & Hto & Hsk & _).
   cbn [seek_loop_p seek_spec]. rewrite slice_from_ok by lia. cbn [bind]. rewrite Ht.
@@ -148,7 +165,7 @@ Lemma seek_field_sim buf seek recs : chain buf 0 recs -> valid_num seek = true -
 Proof.
   intros Hc Hv. unfold seek_field_p. rewrite Hv.
   destruct buf as [|x b'] eqn:Eb.
-  { inversion Hc; subst; [reflexivity|]. apply rec_at_lt in H. simpl in H. lia. }
+  { inversion Hc as [|f' r' Hat Hr]; subst; [reflexivity|]. apply rec_at_lt in Hat. simpl in Hat. lia. }
   rewrite <- Eb in *.
   destruct recs as [|f r].
   { inversion Hc. subst buf. simpl in *. discriminate. }
@@ -191,7 +208,7 @@ Lemma bounds_loop_sim buf last s1 s2 s3 : forall recs fuel off prev acc,
 Proof.
   induction recs as [|f r IH]; intros fuel off prev acc Hc Hne Hfuel; [congruence|].
   destruct fuel as [|fu]; [simpl in Hfuel; lia|].
-  inversion Hc; subst. rename H1 into Hat, H3 into Hr.
+  inversion Hc as [|f' r' Hat Hr]; subst.
   pose proof (rec_at_lt _ _ Hat) as (Hlt & Htl & Hn1).
   pose proof (plfb_sim _ _ Hat) as Hp.
   destruct Hat as (Ht & Hb & Hto & Hsk & _).
@@ -206,7 +223,7 @@ Proof.
     by (symmetry; apply andb_true_intro; split; apply N.leb_le; lia).
   cbn [negb].
   destruct (f_num f =? last)%N; [reflexivity|].
-  unfold fbr at 2 3. cbn [fb_to].
+  change (fb_to (fbr f)) with (f_to f).
   destruct r as [|g r'].
   - rewrite (chain_last _ _ Hr). reflexivity.
   - rewrite (chain_next _ _ _ _ Hr). apply IH; [exact Hr|discriminate|simpl in *; lia].
@@ -266,7 +283,7 @@ Section ExtractSim.
       destruct (svalid i s h); [|reflexivity].
       rewrite slice_from_ok by lia. cbn [bind]. rewrite skipn_all. reflexivity.
     - destruct fuel as [|fu]; [lia|].
-      inversion Hc; subst. rename H1 into Hat, H3 into Hr.
+      inversion Hc as [|f' r' Hat Hr]; subst.
       pose proof (rec_at_lt _ _ Hat) as (Hlt & Htl & _).
       destruct Hat as (Ht & Hb & Hto & Hsk & _ & Hl).
       cbn [ehp_loop ehp_spec].
